@@ -9,12 +9,22 @@
 //! are always quoted. A separate "adventurous" class covers legal-but-unusual plain scalars.
 //!
 //! Deliberately outside the space (docs/compliance/yaml/limitations.md, "Full accounting of the
-//! load failures" and the `|+`/`>+` notes): tags, floats, zero-indented block scalars at the
-//! document root, `|+`/`>+` and explicit indentation indicators on a `---` line, content-less
-//! block scalars, whitespace-only lines inside block scalars, tabs as separation/indentation,
-//! anchors with `:` or other punctuation in the name, bare documents after `...`, explicit
-//! `?` keys in flow context, flow collections as keys, NEL/LS/PS written literally (YAML 1.1
-//! readers treat them as breaks; they are always `\N \L \P` escaped).
+//! load failures" and the `|+`/`>+` notes, plus behaviour documented in the source): tags, floats,
+//! zero-indented block scalars at the document root, `|+`/`>+` and explicit indentation
+//! indicators on a `---` line, content-less block scalars, whitespace-only lines inside block
+//! scalars, tabs as separation/indentation, anchors with `:` or other punctuation in the name,
+//! bare documents after `...`, explicit `?` keys in flow context, flow collections as keys,
+//! NEL/LS/PS written literally (YAML 1.1 readers treat them as breaks; always `\N \L \P`),
+//! keys whose content is `<<` (treated as merge keys even when quoted: `is_merge_key_value`),
+//! a comment holding `: ` after an unquoted token that stands where a mapping key could start
+//! (limitations.md `b #c: d` -> KeyWithoutValue; see `trailing_comment_text`), a flow-mapping
+//! key without `:` followed by a trailing comment (`{ k # c` is rejected on purpose, #437).
+//!
+//! Risk constructs: well-formed shapes on which succinctly has been seen to fail are listed in
+//! `TRIGGERS`. A stream holds at most one kind (`YamlStream::trigger`) so that a violation can be
+//! attributed exactly; `YamlOpts::avoid_risks` renders "clean" streams without any of them and
+//! without the strict validator's risk shapes (`validator_risk_plain`, compact collections whose
+//! non-final entries may span lines).
 //!
 //! `self_check` loads a stream with serde_yaml (libyaml) and compares with the ground truth; a
 //! disagreement marks the case generator-suspect.
@@ -78,6 +88,10 @@ pub struct YamlOpts {
     pub empty_nulls: bool,
     /// only double-quoted strings with JSON escapes, `null`/`true`/`false`, decimal ints
     pub json_scalars: bool,
+    /// Avoid every known risk construct: the `TRIGGERS` list and the validator risks (plain
+    /// scalars holding a quote after white space or a flow bracket, compact collections whose
+    /// non-final entries can span lines). Streams rendered this way are "clean".
+    pub avoid_risks: bool,
     pub line_break: Option<LineBreak>,
     // tree shape
     pub max_depth: usize,
@@ -104,6 +118,7 @@ impl Default for YamlOpts {
             doc_markers: true,
             empty_nulls: true,
             json_scalars: false,
+            avoid_risks: false,
             line_break: None,
             max_depth: 5,
             max_width: 5,
@@ -160,6 +175,7 @@ impl YamlOpts {
             doc_markers: r.chance(3, 4),
             empty_nulls: r.chance(2, 3),
             json_scalars: false,
+            avoid_risks: r.chance(1, 3),
             line_break: None,
             max_depth: *r.pick(&[1usize, 2, 3, 4, 6]),
             max_width: *r.pick(&[1usize, 2, 3, 5, 8]),
@@ -215,6 +231,8 @@ pub struct YamlStream {
     /// the monitors have seen succinctly mis-handle; a stream is limited to one kind so that a
     /// violation can be attributed exactly (see `TRIGGERS`).
     pub trigger: Option<&'static str>,
+    /// rendered with `avoid_risks`
+    pub clean: bool,
 }
 
 impl YamlStream {
@@ -281,10 +299,12 @@ pub const TRIGGERS: &[(&str, &str)] = &[
     ("doc_start_anchor_block_scalar", "`--- &a |` anchored block scalar on the document start line"),
     ("first_compact_indicator", "explicit indentation indicator on the first value of a compact collection: `- - |2`, `-   k: |2`"),
     ("next_line_plain_multiline", "multi-line plain scalar starting on the line after `-`, `:` or `key:`"),
-    ("flow_unquoted_then_blank", "unquoted scalar followed by a blank line inside a flow collection: `[1\\n\\n]`"),
     ("single_pair_special_value", "`[k: v]` single pair whose value is a flow collection, an alias or anchored"),
-    ("flow_key_only_then_comment", "flow mapping key without `:` followed by a comment: `{ k # c\\n}`, `{ k\\n# c\\n}`"),
-    ("flow_comment_bracket", "comment holding a flow bracket inside a flow collection: `[ [1, # ]: x\\n 2] ]`"),
+    ("flow_key_only_then_comment", "flow mapping key without `:` followed by a comment line: `{ k\\n# c\\n}`"),
+    (
+        "flow_entry_lookahead",
+        "inside a flow collection: a comment holding a flow bracket (`[ [1, # ]: x\\n 2] ]`) or a plain scalar holding a quote character (`[ [it's, 'x]: y'] ]`) — the loader's implicit-entry look-ahead does not tokenize them",
+    ),
     ("block_hash_first_line", "block scalar whose first content line starts with `#`"),
     ("alias_then_colon_comment", "alias as a sequence entry / document root followed by a comment containing `: `: `- *a # c: d`"),
 ];
@@ -651,6 +671,17 @@ pub fn plain_class(s: &str, ctx: PlainCtx) -> PlainClass {
     cls
 }
 
+/// Validator risk: inside a plain scalar, an indicator character that follows white space (the
+/// strict validator reads `a "b" c`, `a &b c`, `a > b` as a quoted scalar / anchor / block
+/// header), or a flow bracket anywhere.
+pub fn validator_risk_plain(s: &str) -> bool {
+    let cs: Vec<char> = s.chars().collect();
+    (1..cs.len()).any(|i| {
+        matches!(cs[i], '"' | '\'' | '&' | '*' | '!' | '|' | '>' | '%' | '@' | '`' | '?' | '-' | ':')
+            && matches!(cs[i - 1], ' ' | '\t' | '\n' | ',')
+    }) || s.contains(['[', ']', '{', '}'])
+}
+
 fn single_quotable_line(s: &str) -> bool {
     // [118]-[120]: nb-single-char = nb-json - "'" (plus ''), restricted to conservative printables
     s.chars().all(printable_conservative)
@@ -956,13 +987,13 @@ impl<'a> Rd<'a> {
     }
 
     /// Inside a flow collection a comment holding a flow bracket is a risk construct
-    /// (`flow_comment_bracket`: the loader's bracket-matching look-ahead does not skip comments).
+    /// (`flow_entry_lookahead`: the loader's bracket-matching look-ahead does not skip comments).
     fn flow_comment_sanitize(&mut self, c: String) -> String {
         if !c.contains(['[', ']', '{', '}']) {
             return c;
         }
-        if self.trigger_ok("flow_comment_bracket") {
-            self.trigger_hit("flow_comment_bracket");
+        if self.trigger_ok("flow_entry_lookahead") {
+            self.trigger_hit("flow_entry_lookahead");
             c
         } else {
             c.replace(['[', '{'], "(").replace([']', '}'], ")")
@@ -1037,6 +1068,9 @@ impl<'a> Rd<'a> {
 
     /// May this stream (still) contain risk construct `t`?
     fn trigger_ok(&self, t: &'static str) -> bool {
+        if self.o.avoid_risks {
+            return false;
+        }
         match self.trigger {
             None => true,
             Some(x) => x == t,
@@ -1212,9 +1246,15 @@ impl<'a> Rd<'a> {
         if single_line && single_quotable_line(s) {
             cands.push(("single", 3));
         }
+        // validator risks: a quote after white space, or a flow bracket, inside a plain scalar
+        let vrisk = validator_risk_plain(s);
+        let plain_allowed = !(self.o.avoid_risks && vrisk);
+        if vrisk && !self.o.avoid_risks {
+            self.feat("vrisk_plain_candidate");
+        }
         match plain_class(s, ctx) {
-            PlainClass::Conservative => cands.push(("plain", 6)),
-            PlainClass::Adventurous if self.o.adventurous => cands.push(("plain_adventurous", 5)),
+            PlainClass::Conservative if plain_allowed => cands.push(("plain", 6)),
+            PlainClass::Adventurous if self.o.adventurous && plain_allowed => cands.push(("plain_adventurous", 5)),
             _ => {}
         }
         if multiline_ok && self.o.multiline_scalars && s.chars().count() >= 3 {
@@ -1234,7 +1274,7 @@ impl<'a> Rd<'a> {
                                     && (first || w.chars().next().is_some_and(|c| c.is_alphanumeric()))
                             }) && plain_line_class(l, ctx, i == 0) != PlainClass::No
                         });
-                    if plain_ok {
+                    if plain_ok && plain_allowed {
                         cands.push(("plain_multiline", 3));
                     }
                 }
@@ -1549,9 +1589,10 @@ impl<'a> Rd<'a> {
             if after_scalar {
                 self.detail_at(scalar_idx, "then_break");
             }
-            if self.end_line(comments_ok) && key_only {
-                self.trigger_hit("flow_key_only_then_comment");
-            }
+            // `{ k # c` (trailing comment before the key reached a `:`) is rejected on purpose
+            // (src/yaml/parser.rs parse_flow_unquoted_key, #437, pinned by regression tests): not
+            // generated. A comment on the *next* line is the risk construct.
+            self.end_line(!key_only);
             if self.o.comments && comments_ok && self.r.chance(1, 12) {
                 if key_only {
                     self.trigger_hit("flow_key_only_then_comment");
@@ -1569,14 +1610,15 @@ impl<'a> Rd<'a> {
                     .styles
                     .get(scalar_idx)
                     .is_some_and(|s| matches!(s.style, "plain" | "plain_adventurous" | "plain_multiline" | "int" | "bool" | "null"));
-            if self.o.blank_lines && self.r.chance(1, 12) && (!unquoted || self.trigger_ok("flow_unquoted_then_blank")) {
+            if self.o.blank_lines && self.r.chance(1, 12) {
                 self.newline();
                 self.feat("blank_line_in_flow");
                 if after_scalar {
                     self.detail_at(scalar_idx, "then_blank_line");
                 }
                 if unquoted {
-                    self.trigger_hit("flow_unquoted_then_blank");
+                    // was a risk construct until /repo 0931377 fixed it; kept as a coverage counter
+                    self.feat("flow_unquoted_then_blank");
                 }
             }
             let k = min_indent + self.r.below(4);
@@ -1608,6 +1650,13 @@ impl<'a> Rd<'a> {
             }
             Val::Str(s) => {
                 let mut st = self.choose_string_style(s, PlainCtx::Flow, multiline && !as_key, false, false);
+                if matches!(st, "plain" | "plain_adventurous" | "plain_multiline") && s.contains(['\'', '"']) {
+                    if self.trigger_ok("flow_entry_lookahead") {
+                        self.trigger_hit("flow_entry_lookahead");
+                    } else {
+                        st = "double";
+                    }
+                }
                 if as_key && s.contains(':') && matches!(st, "plain" | "plain_adventurous") {
                     if self.trigger_ok("flow_key_colon") {
                         self.trigger_hit("flow_key_colon");
@@ -1803,7 +1852,7 @@ impl<'a> Rd<'a> {
         if ctx == PlainCtx::BlockKey && self.prev_empty_null.is_some() && self.col() == 0 && matches!(st, "single" | "double") {
             if self.trigger_ok("empty_then_quoted_key_col0") {
                 self.trigger_hit("empty_then_quoted_key_col0");
-            } else if plain_class(k, ctx) == PlainClass::Conservative {
+            } else if plain_class(k, ctx) == PlainClass::Conservative && !(self.o.avoid_risks && validator_risk_plain(k)) {
                 st = "plain";
             } else {
                 // cannot be avoided any more (the empty value is already written)
@@ -1884,7 +1933,10 @@ impl<'a> Rd<'a> {
             Val::Obj(kv) => {
                 self.feat("block_map");
                 self.style("block_map", false);
-                let compact = after && compact_ok && !anchored && self.r.chance(1, 2);
+                let compact_safe = !self.o.avoid_risks
+                    || kv.len() == 1
+                    || kv[..kv.len() - 1].iter().all(|(_, x)| matches!(x, Val::Null | Val::Bool(_) | Val::Num(_)));
+                let compact = after && compact_ok && !anchored && compact_safe && self.r.chance(1, 2);
                 let indent: usize;
                 if compact {
                     let k = self.r.range(1, 3);
@@ -1909,7 +1961,10 @@ impl<'a> Rd<'a> {
                         self.prev_empty_null = None;
                     }
                     self.next_key_needs_quote_col0 = indent == 0
-                        && kv.get(i + 1).is_some_and(|(nk, _)| plain_class(nk, PlainCtx::BlockKey) != PlainClass::Conservative);
+                        && kv.get(i + 1).is_some_and(|(nk, _)| {
+                            plain_class(nk, PlainCtx::BlockKey) != PlainClass::Conservative
+                                || (self.o.avoid_risks && validator_risk_plain(nk))
+                        });
                     self.map_entry(k, val, indent, compact && i == 0);
                     self.next_key_needs_quote_col0 = false;
                 }
@@ -1917,7 +1972,10 @@ impl<'a> Rd<'a> {
             Val::Arr(xs) => {
                 self.feat("block_seq");
                 self.style("block_seq", false);
-                let compact = after && compact_ok && !anchored && self.r.chance(1, 3);
+                let compact_safe = !self.o.avoid_risks
+                    || xs.len() == 1
+                    || xs[..xs.len() - 1].iter().all(|x| matches!(x, Val::Null | Val::Bool(_) | Val::Num(_)));
+                let compact = after && compact_ok && !anchored && compact_safe && self.r.chance(1, 3);
                 let indent: usize;
                 if compact {
                     let k = self.r.range(1, 3);
@@ -2270,6 +2328,7 @@ pub fn render_docs(r: &mut Rng, o: &YamlOpts, docs: &[Val]) -> YamlStream {
         styles: rd.styles,
         line_break: lb,
         trigger: if rd.multi_trigger { Some("multi") } else { rd.trigger },
+        clean: o.avoid_risks,
     }
 }
 
